@@ -64,6 +64,15 @@ Proof.
     exists (n + 1)%Z. right. exists s0, q0. auto.
 Qed.
 
+(* a refused accountant step (GDP with other parameters) leaves the ledger exactly as it was *)
+Theorem refused_step_keeps_ledger (s : ost T) sigma q s' e :
+  ref_acc s sigma q = SErr s' e -> s' = s.
+Proof.
+  unfold ref_acc. destruct (o_acc s); destruct (rev (o_hist s)) as [|[[s0 q0] n] r]; try discriminate.
+  all: match goal with |- context [if ?b then _ else _] => destruct b end; try discriminate.
+  intros H. now inversion H.
+Qed.
+
 (* a skipped physical sub-batch step: no noise draw, no accountant record, no inner step *)
 Theorem skipped_step_silent (s : ost T) q :
   o_skipq s = true :: q -> o_events (sstate (v_step s)) = o_events s /\ o_hist (sstate (v_step s)) = o_hist s.
